@@ -275,7 +275,14 @@ func runListener(sc lnScen, idx int, seed int64) (*lnTrace, error) {
 		}
 		close(release)
 		settle(1000)
-		cwg.Wait()
+		// every consumer reads to the end of its stream; one that never gets there must not hold the whole run
+		cdone := make(chan struct{})
+		go func() { cwg.Wait(); close(cdone) }()
+		select {
+		case <-cdone:
+		case <-time.After(20 * time.Second):
+			shared.Add(vh.Ev{"e": "Stuck"})
+		}
 	}
 	if sc.Close == "early" {
 		// the connections have been accepted and routed; those falling through wait in (or for) the hand-over channel
